@@ -98,6 +98,7 @@ struct World {
   std::unordered_map<int, long> bound_err;
   int fault_node = -1, fault_call = -1;      // modelled fault: the callable of this node throws on this call
   bool tracked_faults = true;                // value copies/moves are throw points (off when that class is a known finding)
+  bool values_in_op_state = true;            // leaves deliver every other value from an object inside their operation state
   bool abandoned = false;                    // case ends with a never-completing leaf (behind unstoppable): teardown of running ops is the harness's doing
   // contexts
   int current_ctx = 0;
@@ -378,6 +379,11 @@ struct Leaf {
     bool in_cb_construct = false, stop_during_construct = false;
     bool* destroyed_flag = nullptr;
     unifex::manual_lifetime<cb_t> cb;
+    // every other run delivers its value from an object that lives in this operation state (as just(x) does): a parent that
+    // destroys the child operation and then still reads the value it was handed by reference is reading a dead object
+    struct Empty {};
+    using slot_t = std::conditional_t<std::is_void_v<Value>, Empty, Value>;
+    unifex::manual_lifetime<slot_t> slot; bool slot_live = false;
 
     Op(int leaf, R&& rr) : id(leaf), inst(-1), r((R &&) rr) {
       W().connects++;
@@ -386,6 +392,7 @@ struct Leaf {
     Op(Op&&) = delete;
     ~Op() {
       if (destroyed_flag) *destroyed_flag = true;
+      if (slot_live) { slot_live = false; slot.destruct(); }
       W().op_destroys++;
       if (inst < 0) { SR_TR("leaf%d (never started) destroyed", id); return; }
       auto& run = W().run(id, inst);
@@ -483,6 +490,11 @@ struct Leaf {
       SR_TR("leaf%d#%d completes with %s on ctx%d", L, I, chan_name(chan), w.current_ctx);
       if (chan == VALUE) {
         if constexpr (std::is_void_v<Value>) unifex::set_value(std::move(r));
+        else if ((L + I) % 2 == 0 && W().values_in_op_state) {
+          slot.construct(mix(100 + (uint64_t)L, (uint64_t)I)); slot_live = true;
+          UNIFEX_TRY { unifex::set_value(std::move(r), std::move(slot.get())); }
+          UNIFEX_CATCH(...) { unifex::set_error(std::move(r), std::current_exception()); }
+        }
         else {
           UNIFEX_TRY { unifex::set_value(std::move(r), Value(mix(100 + (uint64_t)L, (uint64_t)I))); }
           UNIFEX_CATCH(...) { unifex::set_error(std::move(r), std::current_exception()); }
